@@ -4,10 +4,11 @@ From GV Require Import Lang.Core Lang.OptValid Lang.OptValidProofs Lang.OptValid
 Import ListNotations.
 
 (* What the optimiser may drop is pure: a droppable expression has an empty call log and is a value
-   or fails with EArith (or EStuck, which type-correct programs do not reach); no fuel is needed. *)
+   or fails with EArith (or EStuck, which type-correct programs do not reach); fuel is only needed
+   where a recursive value has to be unfolded. *)
 Theorem C04_droppable_pure : forall fop fcmp e n r o l,
   droppable e = true -> eval fop fcmp n r e = (o, l) ->
-  l = [] /\ ((exists v, o = Val v) \/ o = Err EArith \/ o = Err EStuck).
+  l = [] /\ ((exists v, o = Val v) \/ o = Err EArith \/ o = Err EStuck \/ o = OOF).
 Proof. exact droppable_pure. Qed.
 Print Assumptions C04_droppable_pure.
 
@@ -85,3 +86,19 @@ Theorem C04_rewrites_nonvacuous :
                (Const (LInt 1)) = false).
 Proof. exact (conj accepts_dropped_group_member (conj accepts_unnecessary_allocation accepts_unused_record_match)). Qed.
 Print Assumptions C04_rewrites_nonvacuous.
+
+(* Recursive VALUE groups are evaluated by the model (members closing over each other), an unused
+   pure group may be dropped, and a group one of whose value members calls something may not:
+   the call happens when the group is made. *)
+Theorem C04_recursive_values_nonvacuous :
+  eval_core fop0 fcmp0 3 [] (rec_values (Const (LInt 1)) (Call (proj 60%N 62%N 66%N) (ECons (Const (LInt 0)) ENil)))
+    = (Val (VInt 7), [])
+  /\ valid_opt (rec_values (Const (LInt 1)) (Const (LInt 0))) (Const (LInt 0)) = true
+  /\ (valid_opt (rec_values (Call (Ident 4%N) (ECons (Const (LInt 5)) ENil)) (Const (LInt 0))) (Const (LInt 0)) = false
+      /\ eval_core fop0 fcmp0 2 env_eff4 (rec_values (Call (Ident 4%N) (ECons (Const (LInt 5)) ENil)) (Const (LInt 0)))
+         = (Val (VInt 0), [5%Z])
+      /\ eval_core fop0 fcmp0 2 env_eff4 (Const (LInt 0)) = (Val (VInt 0), [])).
+Proof.
+  exact (conj recursive_values_evaluate (conj accepts_dropped_pure_recursive_values rejects_dropped_effectful_recursive_value)).
+Qed.
+Print Assumptions C04_recursive_values_nonvacuous.
